@@ -302,6 +302,10 @@ class GlobInit(Contract):
 class IsHidden(Contract):
     module, qual, props = 'glob', 'Glob._is_hidden', ('C03',)
 
+    def crosscheck(self, eng, paths, inp):
+        from .base import simple_crosscheck
+        return simple_crosscheck(self, eng, paths, inp)
+
     def inputs(self):
         self.name = z3.String('name')
         self.dot = z3.Bool('self_dot')
